@@ -24,6 +24,7 @@
 //   L <n>                            setUsageLineLength
 //   Q <hex>                          only make_arg_array( string) -> words (C07 part 1)
 //   V <hexword>...                   argv incl. argv[0]
+//   VS <string-hex> [<prog-hex>]     instead of V: the arguments as ONE string, evaluated with evalArgumentString()
 //   R                                run
 #include "vh.hpp"
 
@@ -53,6 +54,7 @@
 #include "celma/container/dynamic_bitset.hpp"
 #include "celma/prog_args.hpp"
 #include "celma/prog_args/groups.hpp"
+#include "celma/prog_args/eval_argument_string.hpp"
 
 using namespace celma::prog_args;
 using celma::prog_args::detail::TypedArgBase;
@@ -502,7 +504,8 @@ static void runScenario(const Scenario& sc, uint64_t idx)
    vector<std::unique_ptr<Handler>> subs;
    int brackets = 0;
    vector<string> words;
-   bool haveArgv = false;
+   bool haveArgv = false, useString = false, haveProgName = false;
+   string argString, progName;
    string descr = sc.tag + " scenario=" + sc.id;
    prog.set(idx, descr + " phase=setup");
 
@@ -593,6 +596,14 @@ static void runScenario(const Scenario& sc, uint64_t idx)
             }
             haveArgv = true;
          }
+         else if (c == "VS")
+         {
+            argString = unhexf(t[1]);
+            for (auto hp = argString.find("@HOME@"); hp != string::npos; hp = argString.find("@HOME@", hp)) argString.replace(hp, 6, homeDir);
+            progName = t.size() > 2 ? unhexf(t[2]) : string();
+            haveProgName = t.size() > 2;
+            useString = haveArgv = true;
+         }
          else if (c == "Q")
          {
             // C07 part 1: string -> argv
@@ -618,7 +629,12 @@ static void runScenario(const Scenario& sc, uint64_t idx)
       {
          try
          {
-            if (useGroups) Groups::instance().evalArguments(ab.argc, ab.argv);
+            if (useString)
+            {
+               if (useGroups) evalArgumentString(argString, haveProgName ? progName.c_str() : nullptr);
+               else if (cur) evalArgumentString(*cur, argString, haveProgName ? progName.c_str() : nullptr);
+            }
+            else if (useGroups) Groups::instance().evalArguments(ab.argc, ab.argv);
             else if (cur) cur->evalArguments(ab.argc, ab.argv);
          }
          catch (const std::exception& e) { status = "throw"; etype = excName(e); ewhat = e.what(); }
